@@ -24,6 +24,9 @@ type HOp struct {
 	// SharedAF > 0: the caller keeps ONE PacketAdaptationField object (number SharedAF) and passes the same pointer to every
 	// such WriteData call, as the doc comment of WriteData anticipates (content = the adaptation field of the first such op)
 	SharedAF int
+	// SharedEdit (with SharedAF > 0): before this call the caller edits its adaptation field object — the content becomes SharedEdit —
+	// but leaves StuffingLength as the previous call left it (the documented by-product WriteData manages)
+	SharedEdit *astits.PacketAdaptationField
 	// Edge: the PES optional header of this data op sits at the edge of the write contract (see edgeHeaders): the Muxer may accept
 	// or refuse it; when it accepts, the unit must be delivered but its header is not compared with the reference encoding
 	Edge bool
@@ -109,6 +112,12 @@ func (h *histStepper) Step() {
 			if shared[op.SharedAF] == nil {
 				shared[op.SharedAF] = mon.Clone(op.Data.AdaptationField)
 				sharedContent[op.SharedAF] = mon.Clone(op.Data.AdaptationField)
+			}
+			if op.SharedEdit != nil {
+				keep := shared[op.SharedAF].StuffingLength
+				*shared[op.SharedAF] = *mon.Clone(op.SharedEdit)
+				shared[op.SharedAF].StuffingLength = keep
+				sharedContent[op.SharedAF] = mon.Clone(op.SharedEdit)
 			}
 			// the oracle must compare with the content really passed
 			nd := *op.Data
@@ -732,4 +741,64 @@ func remuxScenario(r *rand.Rand, fromMuxer bool) (ops []HOp, units int, parsedEn
 		ops = append(ops, HOp{Kind: "pcr", PID: pids[0]})
 	}
 	return append(ops, data...), len(data), parsedEntries
+}
+
+// retryScenario: a WriteData call is rejected because its adaptation field (private data) is larger than a packet; the caller
+// repairs exactly that on the same object — shorter private data — and calls again, and goes on using the object.
+func retryScenario(r *rand.Rand) []HOp {
+	mk := func(af *astits.PacketAdaptationField, edit *astits.PacketAdaptationField, n int) HOp {
+		return HOp{Kind: "data", PID: 0x40, SharedAF: 1, SharedEdit: edit, Data: &astits.MuxerData{AdaptationField: af,
+			PES: &astits.PESData{Header: &astits.PESHeader{StreamID: 0xE0, OptionalHeader: &astits.PESOptionalHeader{MarkerBits: 2}}, Data: gen.Bytes(r, n)}}}
+	}
+	priv := func(n int) *astits.PacketAdaptationField {
+		return &astits.PacketAdaptationField{HasTransportPrivateData: true, TransportPrivateData: gen.Bytes(r, n), TransportPrivateDataLength: n, RandomAccessIndicator: r.IntN(2) == 0}
+	}
+	ops := []HOp{{Kind: "add", PID: 0x40, ES: &astits.PMTElementaryStream{StreamType: astits.StreamTypeH264Video}, Slot: -1}, {Kind: "pcr", PID: 0x40}}
+	if r.IntN(2) == 0 {
+		ops = append(ops, mk(priv(1+r.IntN(100)), nil, 1+r.IntN(600)))
+	}
+	big := priv(182 + r.IntN(120))
+	first := mk(big, nil, 1+r.IntN(1200))
+	if len(ops) > 2 {
+		first.SharedEdit = big
+	}
+	ops = append(ops, first)
+	for k := 0; k < 1+r.IntN(4); k++ {
+		ops = append(ops, mk(big, priv(r.IntN(170)), []int{1, 10, 150, 170, 184, 400, 1 + r.IntN(1200)}[r.IntN(7)]))
+	}
+	return ops
+}
+
+// reservedPIDScenario asks for elementary streams on PIDs that cannot carry one — the Muxer's own program map PID, the null packet
+// PID, values wider than 13 bits (which alias another PID on the wire) — next to ordinary streams, and writes on all of them.
+// Whether the Muxer refuses the stream or not, what reaches the output must satisfy the packet level properties.
+func reservedPIDScenario(r *rand.Rand) []HOp {
+	mk := func(pid uint16, auto bool, slot int) HOp {
+		return HOp{Kind: "data", PID: pid, Auto: auto, Slot: slot, Data: &astits.MuxerData{PES: &astits.PESData{Header: &astits.PESHeader{StreamID: 0xC0, OptionalHeader: &astits.PESOptionalHeader{MarkerBits: 2}}, Data: gen.Bytes(r, 1+r.IntN(700))}}}
+	}
+	bad := []uint16{0x1000, 0x1fff, 0x2100, 0x3000, 0x2000, 0xffff, 0x2101}
+	b1, b2 := bad[r.IntN(len(bad))], bad[r.IntN(len(bad))]
+	ops := []HOp{{Kind: "add", PID: 0x40, ES: &astits.PMTElementaryStream{StreamType: astits.StreamTypeH264Video}, Slot: -1}, {Kind: "pcr", PID: 0x40},
+		{Kind: "add", PID: 0, Auto: true, Slot: 0, ES: &astits.PMTElementaryStream{StreamType: astits.StreamTypeMPEG2Audio}},
+		{Kind: "add", PID: b1, ES: &astits.PMTElementaryStream{StreamType: astits.StreamTypeAACAudio}, Slot: -1},
+		{Kind: "add", PID: 0, Auto: true, Slot: 1, ES: &astits.PMTElementaryStream{StreamType: astits.StreamTypeAACAudio}},
+		{Kind: "add", PID: b2, ES: &astits.PMTElementaryStream{StreamType: astits.StreamTypePrivateData}, Slot: -1},
+		{Kind: "tables"}}
+	for k := 0; k < 6+r.IntN(30); k++ {
+		switch r.IntN(6) {
+		case 5:
+			ops = append(ops, mk(0x40, false, -1))
+		case 0:
+			ops = append(ops, mk(b1, false, -1))
+		case 1:
+			ops = append(ops, mk(b2, false, -1))
+		case 2:
+			ops = append(ops, mk(0, true, 0))
+		case 3:
+			ops = append(ops, mk(0, true, 1))
+		case 4:
+			ops = append(ops, HOp{Kind: "tables"})
+		}
+	}
+	return ops
 }
